@@ -198,7 +198,14 @@ func (n *node) post(path string, headers map[string]string, body []byte) (int, s
 	copy(own, body)
 	ctx.Request.SetBodyRaw(own)
 	n.handler(&ctx)
-	return ctx.Response.StatusCode(), string(ctx.Response.Body())
+	st, rb := ctx.Response.StatusCode(), string(ctx.Response.Body())
+	// fasthttp reuses the request buffer for the next request on the
+	// connection: nothing may alias the body after the handler returned.
+	// Scribbling it makes any retained alias visible (cooperative fault point).
+	for i := range own {
+		own[i] = 0xAA
+	}
+	return st, rb
 }
 
 // ---------------------------------------------------------------------------
